@@ -340,6 +340,12 @@ func runC15(c *Ctx) {
 					if spec.typ == "TruncatedWriter" && name == "limit" {
 						okInit = st.Val == ssa.Value(f.Params[1])
 					}
+					// the wrapped stream is the argument itself: reading from anything
+					// else (an unwrapped inner reader, a buffered copy) bypasses the
+					// accounting of r
+					if (spec.typ == "limitedReader" && name == "r") || (spec.typ == "TruncatedWriter" && name == "w") {
+						okInit = st.Val == ssa.Value(f.Params[0])
+					}
 					if spec.typ == "TruncatedWriter" && name == "offset" {
 						k, isK := core.ConstInt(st.Val)
 						okInit = isK && k == 0
